@@ -132,8 +132,61 @@ def gen_malformed(rng):
     return c
 
 
+def check_fai_text(ctx, count):
+    """FastaInfo.fai_row / FastaIndex.load_index vs Lean faiRow / loadIndex (the warm path of the index), incl. malformed lines"""
+    import tempfile
+    from pathlib import Path
+    from tola.fasta.index import FastaIndex, FastaInfo
+    out, rng = ctx.out, ctx.rng
+    reqs, meta = [], []
+    with F.Scratch() as sc:
+        for i in range(count):
+            rows = []
+            for k in range(rng.randint(1, 4)):
+                rows.append([rng.choice(["chr", "s", "HAP1_SCAFFOLD_"]) + str(k + 1), rng.randint(0, 10**12), rng.randint(0, 10**12), rng.randint(0, 80), rng.randint(0, 82)])
+            text = "".join(FastaInfo(*r[1:]).fai_row(r[0]) for r in rows)
+            lines = text.splitlines(keepends=True)
+            mal = rng.random() < 0.35
+            if mal and lines:
+                j = rng.randrange(len(lines))
+                f = lines[j].rstrip("\n").split("\t")
+                k = rng.choice(["del", "add", "nonint", "space", "dup", "blank"])
+                if k == "del":
+                    del f[rng.randrange(len(f))]
+                elif k == "add":
+                    f.append("7")
+                elif k == "nonint":
+                    f[rng.randint(1, 4)] = rng.choice(["x", "1.5", "", "1_0", " 3"])
+                elif k == "space":
+                    f[0] = f[0] + " extra"
+                elif k == "dup" and len(lines) > 1:
+                    f[0] = rows[0][0]
+                lines[j] = ("\t".join(f) + "\n") if k != "blank" else "\n"
+            p = sc.path / f"t{i}.fa"
+            p.write_bytes(b">x\nA\n")
+            fai = FastaIndex(p)
+            fai.fai_file.write_text("".join(lines))
+            try:
+                fai.load_index()
+                real_load = {"ok": [[n, x.length, x.file_offset, x.residues_per_line, x.max_line_length] for n, x in fai.index.items()]}
+            except Exception as e:
+                real_load = {"err": conv.errkind(e)}
+            reqs.append({"id": 0, "kind": "fai", "lines": lines, "index": rows})
+            meta.append(({"lines": lines, "rows": rows}, {"load": real_load, "rows": [FastaInfo(*r[1:]).fai_row(r[0]) for r in rows]}, mal))
+    ms = ctx.driver.batch(reqs) if ctx.driver else [None] * len(reqs)
+    for (inp, real, mal), m in zip(meta, ms):
+        key = ("fai", len(inp["lines"]), mal, "err" in real["load"])
+        if m is not None:
+            out.compare("fai-text", inp, real, m, key)
+        else:
+            out.case("fai-text", inp, key)
+        if not mal and real["load"].get("ok") != inp["rows"]:
+            out.oracle_fail("fai-text", inp, "reading back written .fai rows does not give the index that was written")
+
+
 def run(ctx):
     n = 8 if ctx.thorough else 1
+    check_fai_text(ctx, 150 * n)
     check_wellformed(ctx, "wellformed", [gen_wellformed(ctx.rng) for _ in range(500 * n)])
     check_wellformed(ctx, "malformed", [gen_malformed(ctx.rng) for _ in range(150 * n)])
 
